@@ -143,6 +143,17 @@ func c16Shapes() []*c16Case {
 		um.Rules[1].Action = " $$ = 1; _ = $1 "
 		add("union-member-"+name, um)
 	}
+	// two %union blocks, each on one line (the later one is the one yaccgo uses; whatever it does with
+	// the earlier one, the file must compile)
+	two := gram.Parse("S", nil, "S: S TA | TA")
+	two.Union = " w string "
+	two.HasUnion = true
+	two.RawDecls = []string{"%union { v int }"}
+	two.Tokens = []gram.TokDecl{{Name: "TA", Tag: "v"}}
+	two.Types = []gram.TypeDecl{{Tag: "v", Names: []string{"S"}}}
+	two.Rules[0].Action = " $$ = $1 + $2 "
+	two.Rules[1].Action = " $$ = $1 "
+	add("two-union-blocks", two)
 	num := gram.Parse("S", nil, "S: TA TB TC | ")
 	num.Tokens = []gram.TokDecl{{Name: "TA", Num: 300}, {Name: "TB"}, {Name: "TC", Num: 2}}
 	add("explicit-numbers", num)
@@ -263,6 +274,13 @@ func c16Source(s *gram.Spec, variant, pkg string) string {
 		if c.HasUnion {
 			// the union body is target-language text: translate the two field shapes used by the shape list
 			c.Union = strings.NewReplacer(" v int ", " v :number; ", " w string ", " w :string; ").Replace(c.Union)
+			if len(c.RawDecls) > 0 {
+				var rd []string
+				for _, l := range c.RawDecls {
+					rd = append(rd, strings.ReplaceAll(l, "{ v int }", "{ v :number; }"))
+				}
+				c.RawDecls = rd
+			}
 			if i := strings.Index(c.Union, "\n x "); i >= 0 {
 				c.Union = c.Union[:i] + "\n x :any; "
 			}
